@@ -10,6 +10,7 @@ import AgeModel.Extracted.Consts
 import Proofs.GoTieScrypt
 import Proofs.GoTieScryptCtor
 import Proofs.GoTieCliLazy
+import Proofs.GoTieCliEncId
 namespace AgeModel
 namespace Tie.C10
 
@@ -116,6 +117,51 @@ theorem lazy_unwrap_no_prompt (P : Prims) (E : GoTie.ScryptEnv P) (ss : List For
     ∃ r, Extracted.main_LazyScryptIdentity_Unwrap GoTie.errorsIsEq E.D E.K E.A ⟨.error (.panic 99)⟩ (ss.map GoTie.toGoStanza) = .ok r ∧
       GoTie.resClass r = (CliIdent.lazyUnwrap P none 22 ss).1 :=
   GoTie.lazy_unwrap_no_prompt P E ss h
+
+/-! cmd/age's passphrase-protected identity file, `(*EncryptedIdentity).Unwrap`, translated (its
+`decrypt` and the identities inside are parameters; `identities` is a field whose being nil differs
+from being empty): once the identities are cached `decrypt` is not called again — it may fault when
+called — so the passphrase is asked for at most once per identity value; a failed `decrypt` is
+returned as it is and the inner identities are not consulted; the cached identities are tried in
+order (`CliIdent.tryAll`), and the "no match" warning is given exactly when all answer "incorrect
+identity". -/
+
+theorem encid_cached_tie (P : Prims) {ι : Type} (idOf : ι → Identity) (U : ι → List Extracted.age_Stanza → Go.M (Bytes × Option Go.Err))
+    (hU : GoTie.IdsAre P idOf U) (c : Bytes) (pp : Go.M (Bytes × Option Go.Err)) (ids : List ι) (ss : List Format.Stanza) :
+    ∃ r, Extracted.main_EncryptedIdentity_Unwrap (fun _ => .error (.panic 97)) U GoTie.errorsIsEq ⟨c, pp, .ok (), some ids⟩ (ss.map GoTie.toGoStanza) =
+        .ok (r.1, r.2, ⟨c, pp, .ok (), some ids⟩) ∧
+      GoTie.resClass r = CliIdent.tryAll P ss (ids.map idOf) :=
+  GoTie.encid_cached_tie P idOf U hU c pp ids ss
+
+theorem encid_cached_warning (P : Prims) {ι : Type} (idOf : ι → Identity) (U : ι → List Extracted.age_Stanza → Go.M (Bytes × Option Go.Err))
+    (hU : GoTie.IdsAre P idOf U) (c : Bytes) (pp : Go.M (Bytes × Option Go.Err)) (ids : List ι) (ss : List Format.Stanza)
+    (h : CliIdent.tryAll P ss (ids.map idOf) = .incorrect) :
+    Extracted.main_EncryptedIdentity_Unwrap (fun _ => .error (.panic 97)) U GoTie.errorsIsEq ⟨c, pp, .error (.panic 98), some ids⟩ (ss.map GoTie.toGoStanza) =
+      .error (.panic 98) :=
+  GoTie.encid_cached_warning P idOf U hU c pp ids ss h
+
+theorem encid_cached_no_warning (P : Prims) {ι : Type} (idOf : ι → Identity) (U : ι → List Extracted.age_Stanza → Go.M (Bytes × Option Go.Err))
+    (hU : GoTie.IdsAre P idOf U) (c : Bytes) (pp : Go.M (Bytes × Option Go.Err)) (ids : List ι) (ss : List Format.Stanza)
+    (h : CliIdent.tryAll P ss (ids.map idOf) ≠ .incorrect) :
+    ∃ r, Extracted.main_EncryptedIdentity_Unwrap (fun _ => .error (.panic 97)) U GoTie.errorsIsEq ⟨c, pp, .error (.panic 98), some ids⟩ (ss.map GoTie.toGoStanza) =
+        .ok (r.1, r.2, ⟨c, pp, .error (.panic 98), some ids⟩) ∧
+      GoTie.resClass r = CliIdent.tryAll P ss (ids.map idOf) :=
+  GoTie.encid_cached_no_warning P idOf U hU c pp ids ss h
+
+theorem encid_fresh_ok {ι : Type} (U : ι → List Extracted.age_Stanza → Go.M (Bytes × Option Go.Err))
+    (Dc : Extracted.main_EncryptedIdentity ι → Go.M (Option Go.Err × Extracted.main_EncryptedIdentity ι))
+    (i i' : Extracted.main_EncryptedIdentity ι) (hi : i.identities = none) (hD : Dc i = .ok (none, i'))
+    (ids : List ι) (hi' : i'.identities = some ids) (ss : List Extracted.age_Stanza) :
+    Extracted.main_EncryptedIdentity_Unwrap Dc U GoTie.errorsIsEq i ss =
+      Extracted.main_EncryptedIdentity_Unwrap (fun _ => .error (.panic 97)) U GoTie.errorsIsEq i' ss :=
+  GoTie.encid_fresh_ok U Dc i i' hi hD ids hi' ss
+
+theorem encid_fresh_fail {ι : Type}
+    (Dc : Extracted.main_EncryptedIdentity ι → Go.M (Option Go.Err × Extracted.main_EncryptedIdentity ι))
+    (i i' : Extracted.main_EncryptedIdentity ι) (hi : i.identities = none) (e : Go.Err) (hD : Dc i = .ok (some e, i'))
+    (ss : List Extracted.age_Stanza) :
+    Extracted.main_EncryptedIdentity_Unwrap Dc (fun _ _ => .error (.panic 96)) GoTie.errorsIsEq i ss = .ok ([], some e, i') :=
+  GoTie.encid_fresh_fail Dc i i' hi e hD ss
 
 end Tie.C10
 end AgeModel
